@@ -58,8 +58,10 @@ def perturb_values(fresh):
         out.append('#N/A')
         if fresh not in (0, 1):
             out.append(True)
+        if abs(fresh) > 2:
+            out.append(0)           # a falsy stored result is still a stored result
     else:
-        out += ['zz', 99, '#N/A']
+        out += ['zz', 99, '#N/A', 0]
     return out
 
 
@@ -183,10 +185,11 @@ def run(tier, seed):
     v = Verdict(PID, tier, seed)
     if tier == 'quick':
         jobs = [('chain', seed, 3, [[], ['B1']]), ('nested', seed, 3, [[], ['B2'], ['C1']]),
-                ('range', seed, 2, [[]]), ('cse', seed, 2, [[]]), ('big', seed, 2, [[], ['C1']])]
+                ('range', seed, 2, [[]]), ('cse', seed, 2, [[]]), ('big', seed, 2, [[], ['C1']]),
+                ('csef', seed, 2, [[]])]
     else:
         jobs = [(name, seed, 12, [[]] + [[f] for f in sorted(W.WORKBOOKS[name]['formulas'])])
-                for name in ('chain', 'nested', 'range', 'cse', 'grid', 'alias', 'trimex', 'big')]
+                for name in ('chain', 'nested', 'range', 'cse', 'grid', 'alias', 'trimex', 'big', 'csef')]
     results = parallel.run_jobs(job, jobs)
     for r in results:
         for t in r['tlc']:
